@@ -18,7 +18,6 @@ import (
 	"os"
 	"path/filepath"
 	"runtime/debug"
-	"runtime/pprof"
 	"strings"
 
 	"github.com/aergoio/aergo-lib/db"
@@ -70,11 +69,6 @@ func main() {
 	}
 	e.scratch = db.NewDB(db.MemoryImpl, filepath.Join(run.Out, "scratch"))
 
-	if pf := os.Getenv("C08_PROF"); pf != "" {
-		f, _ := os.Create(pf)
-		pprof.StartCPUProfile(f)
-		defer pprof.StopCPUProfile()
-	}
 	partA(e)
 	partAWitnesses(e)
 	partB(e)
@@ -173,8 +167,8 @@ func partA(e *env) {
 // scriptedHistory: the concrete histories of lean/Aergo/Props/C08.lean (the `*_false` witnesses), on the real code.
 type sb struct {
 	name, prev string
-	bp       int
-	c        uint64
+	bp         int
+	c          uint64
 }
 
 func partAWitnesses(e *env) {
@@ -566,10 +560,6 @@ func partD(e *env) {
 			run.Count(fmt.Sprintf("explore byz=p%d level=%d distinct-states=%d", byz, lvl+1, len(next)))
 			frontier = next
 		}
-		seen := map[int]bool{}
-		for i := 0; i < total; i++ {
-			seen[i] = true
-		}
-		run.Count(fmt.Sprintf("explore byz=p%d depth=%d states=%d capped=%v", byz, depth, len(seen), capped))
+		run.Count(fmt.Sprintf("explore byz=p%d depth=%d states=%d visits=%d capped=%v", byz, depth, total, visited, capped))
 	}
 }
